@@ -12,6 +12,8 @@
 //!   case <name>
 //!   await <ready|value|ref> <awaiters> <polls> <sched>   party 0 = producer (completes the async
 //!        derived's future and polls its task), parties 1.. = awaiters polling by hand
+//!   awaitr <ready|value|ref> <awaiters> <polls> <reloads> <sched>   the same with <reloads> further loads (party 0
+//!        writes the derived's source, the task stores loading = true and awaits the next fetcher, ...)
 //!   dnotify <k> <sched>                                  party 0 = the derived's thread (its task runs `notify_subs`),
 //!        parties 1..k call `derived.notify()`; afterwards party 0 writes the derived's source: it must reload
 //!   dwrite <ready|value|ref> <polls> <sched>             party 0 is inside `derived.update(|v| ..)` (value write-locked),
@@ -24,6 +26,9 @@
 //!        spec = comma separated memo definitions x<c><src> (src*c) a<c><src> (src+c) d<c><src> (src/c)
 //!        p<src><src> (sum, read in that order), <src> = s | m<i>; gates = m (the memo:* points incl.
 //!        memo:cleared / memo:unlocked) and/or l (sources:clearing); needs hooks/yield_points_v2.patch; prog ops g<i> (memo i .get) s<v> (set)
+//!   derived <spec> <prog>/<prog>[/<prog>] <sched>        an ArcAsyncDerived = (last memo of graph <spec> over signal a) * 1000
+//!        + signal b (a = 1, b = 10); its task lives on party 0's executor; ops a<v> b<v> (set a / b) g<i> and,
+//!        party 0 only, p (poll the executor); party 0 polls once more when all are done; final value = from scratch
 //!   imm <spec> <prog>                                    single thread: an `ImmediateEffect` reading the last memo of
 //!        the graph <spec> (see `graph`), then the ops s<v> / g<i>; a hang is `fail hang`
 //!   sig <prog>/<prog>[/<prog>] <sched>                   plain signal (initially 1), no hooks: prog ops
@@ -144,6 +149,13 @@ mod real {
         let me = ME.with(|m| m.borrow().clone());
         if let Some((sh, id)) = me {
             lock(&sh).open[id] = true;
+        }
+    }
+
+    fn close_gates() {
+        let me = ME.with(|m| m.borrow().clone());
+        if let Some((sh, id)) = me {
+            lock(&sh).open[id] = false;
         }
     }
 
@@ -431,7 +443,7 @@ mod real {
         done: bool,
     }
 
-    fn run_await(kind: usize, n_aw: usize, polls: usize, sched: &[usize]) -> String {
+    fn run_await(kind: usize, n_aw: usize, polls: usize, reloads: usize, sched: &[usize]) -> String {
         let mut gates: Vec<Vec<&'static str>> =
             vec![vec!["notify_subs:enter", "notify_subs:stored", "notify_subs:drained"]];
         for _ in 0..n_aw {
@@ -458,33 +470,59 @@ mod real {
                 sched::install();
                 let owner = Owner::new();
                 owner.set();
-                let (tx, rx) = oneshot::channel::<u32>();
-                let rx = Arc::new(Mutex::new(Some(rx)));
-                let d = ArcAsyncDerived::new(move || {
-                    let rx = rx.lock().unwrap().take();
-                    async move {
-                        match rx {
-                            Some(rx) => rx.await.unwrap_or(0),
-                            None => 0,
+                // one fetcher (oneshot) per load; a reload is triggered by writing `src` on this thread
+                let src = ArcRwSignal::new(0u32);
+                let mut txs = vec![];
+                let mut rxs = std::collections::VecDeque::new();
+                for _ in 0..=reloads {
+                    let (tx, rx) = oneshot::channel::<u32>();
+                    txs.push(tx);
+                    rxs.push_back(rx);
+                }
+                let rxs = Arc::new(Mutex::new(rxs));
+                let d = {
+                    let src = src.clone();
+                    ArcAsyncDerived::new(move || {
+                        let _ = src.get();
+                        let rx = rxs.lock().unwrap().pop_front();
+                        async move {
+                            match rx {
+                                Some(rx) => rx.await.unwrap_or(0),
+                                None => 0,
+                            }
                         }
-                    }
-                });
+                    })
+                };
                 // the derived's task: consumes the initial notification, stores loading = true, awaits the fetcher
                 sched::run_until_idle(16);
                 *slot.lock().unwrap() = Some(d.clone());
-                if yield_here("h:start") {
-                    return;
-                }
-                let _ = tx.send(7);
-                loop {
-                    // polls the task: fut completes -> set_inner_value -> value.write().await -> notify_subs
-                    sched::run_until_idle(16);
-                    if sh.seen(0, "notify_subs:drained") {
-                        break;
+                for (k, tx) in txs.into_iter().enumerate() {
+                    if k == 0 {
+                        if yield_here("h:start") {
+                            return;
+                        }
+                    } else {
+                        // the previous load is complete: start the next one
+                        if yield_here("h:reload") {
+                            return;
+                        }
+                        src.set(k as u32);
+                        sched::run_until_idle(16);
+                        if yield_here("h:load") {
+                            return;
+                        }
                     }
-                    // the value lock is read-held by an awaiter inside its poll: the task is Pending on it
-                    if yield_here("h:idle") {
-                        return;
+                    let _ = tx.send(7 + k as u32);
+                    loop {
+                        // polls the task: fut completes -> set_inner_value -> value.write().await -> notify_subs
+                        sched::run_until_idle(16);
+                        if lock(&sh).trace[0].iter().filter(|n| **n == "notify_subs:drained").count() > k {
+                            break;
+                        }
+                        // the value lock is read-held by an awaiter inside its poll: the task is Pending on it
+                        if yield_here("h:idle") {
+                            return;
+                        }
                     }
                 }
                 producer_done.store(true, SeqCst);
@@ -1397,6 +1435,222 @@ mod real {
         format!("{out} ## {verdict}")
     }
 
+    // ------------------------------------------------------------ scenario: derived
+
+    #[derive(Clone, Copy, PartialEq, Debug)]
+    enum DOp {
+        Get(usize),
+        SetA(u64),
+        SetB(u64),
+        Poll,
+    }
+
+    fn parse_dprog(s: &str, n: usize, party: usize) -> Option<Vec<DOp>> {
+        if s == "-" {
+            return Some(vec![]);
+        }
+        s.split(',')
+            .map(|o| {
+                if o == "p" {
+                    return (party == 0).then_some(DOp::Poll);
+                }
+                let (c, v) = o.split_at(1.min(o.len()));
+                let v: u64 = v.parse().ok()?;
+                match c {
+                    "g" => (v < n as u64).then_some(DOp::Get(v as usize)),
+                    "a" => (v < 1000).then_some(DOp::SetA(v)),
+                    "b" => (v < 1000).then_some(DOp::SetB(v)),
+                    _ => None,
+                }
+            })
+            .collect()
+    }
+
+    /// An `ArcAsyncDerived` = (last memo of the graph over signal `a`) * 1000 + signal `b`, its task on
+    /// party 0's executor (polled by the op `p` and once more when everybody is done).  Other parties
+    /// write the signals / read memos while the task is inside `needs_rerun`'s source check (pre-empted
+    /// at the memo:* points of the memo it is checking).  Oracle: final value = from-scratch.
+    fn run_derived(defs: &[GDef], progs: &[Vec<DOp>], sched: &[usize]) -> String {
+        let n = progs.len();
+        let mut g: Vec<&'static str> = MEMO_GATES.to_vec();
+        g.push("memo:cleared");
+        g.push("memo:unlocked");
+        let mut eng = Engine::new((0..n).map(|_| g.clone()).collect());
+        type Handles = (ArcRwSignal<u64>, ArcRwSignal<u64>, Vec<ArcMemo<u64>>);
+        let slot: Arc<Mutex<Option<Handles>>> = Arc::new(Mutex::new(None));
+        let results: Vec<Arc<Mutex<Vec<String>>>> = (0..n).map(|_| Arc::new(Mutex::new(vec![]))).collect();
+        let fin: Arc<Mutex<Option<String>>> = Arc::new(Mutex::new(None));
+        let others_done: Vec<Arc<AtomicBool>> = (1..n).map(|_| Arc::new(AtomicBool::new(false))).collect();
+        let run_op = |op: DOp, h: &Handles| -> String {
+            match op {
+                DOp::Get(j) => match catch_unwind(AssertUnwindSafe(|| h.2[j].get_untracked())) {
+                    Ok(v) => v.to_string(),
+                    Err(_) => "panic".into(),
+                },
+                DOp::SetA(v) => match catch_unwind(AssertUnwindSafe(|| h.0.set(v))) {
+                    Ok(()) => ".".into(),
+                    Err(_) => "panic".into(),
+                },
+                DOp::SetB(v) => match catch_unwind(AssertUnwindSafe(|| h.1.set(v))) {
+                    Ok(()) => ".".into(),
+                    Err(_) => "panic".into(),
+                },
+                DOp::Poll => {
+                    match catch_unwind(AssertUnwindSafe(|| sched::run_until_idle(64))) {
+                        Ok(_) => ".".into(),
+                        Err(_) => "panic".into(),
+                    }
+                }
+            }
+        };
+        {
+            let defs = defs.to_vec();
+            let prog = progs[0].clone();
+            let (slot, res, fin) = (slot.clone(), results[0].clone(), fin.clone());
+            eng.spawn(0, move || {
+                sched::install();
+                // set-up (first load included) runs unpreempted
+                open_gates();
+                let owner = Owner::new();
+                owner.set();
+                let a = ArcRwSignal::new(1u64);
+                let b = ArcRwSignal::new(10u64);
+                let mut memos: Vec<ArcMemo<u64>> = vec![];
+                for d in &defs {
+                    let srcs: Vec<Option<ArcMemo<u64>>> =
+                        d.reads.iter().map(|s| match s { GSrc::Memo(j) => Some(memos[*j].clone()), GSrc::Sig => None }).collect();
+                    let a = a.clone();
+                    let f = d.f;
+                    memos.push(ArcMemo::new(move |_| {
+                        let x: Vec<u64> = srcs.iter().map(|m| match m { Some(m) => m.get(), None => a.get() }).collect();
+                        apply_fn(f, &x)
+                    }));
+                }
+                let derived = {
+                    let last = memos.last().unwrap().clone();
+                    let b = b.clone();
+                    ArcAsyncDerived::new(move || {
+                        let x = last.get();
+                        let y = b.get();
+                        async move { x * 1000 + y }
+                    })
+                };
+                sched::run_until_idle(64);
+                close_gates();
+                let h: Handles = (a.clone(), b.clone(), memos.clone());
+                *slot.lock().unwrap() = Some(h.clone());
+                for (k, op) in prog.iter().enumerate() {
+                    if yield_here(if k == 0 { "h:start" } else { "h:next" }) {
+                        return;
+                    }
+                    let r = run_op(*op, &h);
+                    res.lock().unwrap().push(r);
+                }
+                if prog.is_empty() && yield_here("h:start") {
+                    return;
+                }
+                // granted only when every other party has returned
+                if yield_here("h:post") {
+                    return;
+                }
+                open_gates();
+                sched::run_until_idle(64);
+                let v = catch_unwind(AssertUnwindSafe(|| derived.get_untracked())).ok().flatten();
+                // then every memo once more, in index order
+                let ms: Vec<String> = memos
+                    .iter()
+                    .map(|m| match catch_unwind(AssertUnwindSafe(|| m.get_untracked())) {
+                        Ok(v) => v.to_string(),
+                        Err(_) => "panic".into(),
+                    })
+                    .collect();
+                *fin.lock().unwrap() = Some(format!(
+                    "{}:{},{} m={}",
+                    v.map(|v| v.to_string()).unwrap_or("none".into()),
+                    a.get_untracked(),
+                    b.get_untracked(),
+                    ms.join(",")
+                ));
+                drop(owner);
+            });
+        }
+        for i in 1..n {
+            let prog = progs[i].clone();
+            let (slot, res, done) = (slot.clone(), results[i].clone(), others_done[i - 1].clone());
+            eng.spawn(i, move || {
+                if yield_here("h:start") {
+                    return;
+                }
+                let h = slot.lock().unwrap().clone().expect("handles");
+                for (k, op) in prog.iter().enumerate() {
+                    if k > 0 && yield_here("h:next") {
+                        return;
+                    }
+                    let r = run_op(*op, &h);
+                    res.lock().unwrap().push(r);
+                }
+                done.store(true, SeqCst);
+            });
+        }
+        eng.wait_all_started();
+        let od = others_done.clone();
+        let skip = move |e: &Engine, t: usize| -> bool {
+            t == 0 && e.last(0) == "h:post" && !od.iter().all(|d| d.load(SeqCst))
+        };
+        eng.run(sched, &skip);
+        let mut out = String::new();
+        let mut dead = eng.hang;
+        let mut panicked = false;
+        for i in 0..n {
+            let r = results[i].lock().unwrap();
+            let mut parts: Vec<String> = r.clone();
+            for _ in r.len()..progs[i].len() {
+                parts.push("?".into());
+            }
+            if !eng.finished(i) {
+                dead = true;
+            }
+            panicked |= r.iter().any(|s| s == "panic");
+            out.push_str(&format!("p{}={} ", i, if parts.is_empty() { "-".into() } else { parts.join(",") }));
+        }
+        let f = fin.lock().unwrap().clone();
+        eng.release();
+        let mut stale = false;
+        let mut memo_stale = false;
+        match &f {
+            Some(f) if !dead => {
+                out.push_str(&format!("fin={f}"));
+                // fin = value:a,b m=m0,m1,..
+                let (head, ms) = f.split_once(" m=").unwrap();
+                let (v, ab) = head.split_once(':').unwrap();
+                let (a, b) = ab.split_once(',').unwrap();
+                let sc = scratch(defs, a.parse().unwrap());
+                let want = sc.last().unwrap() * 1000 + b.parse::<u64>().unwrap();
+                stale = v != want.to_string();
+                let got: Vec<&str> = ms.split(',').collect();
+                panicked |= got.iter().any(|x| *x == "panic");
+                memo_stale = got.iter().zip(&sc).any(|(g, w)| *g != "panic" && *g != w.to_string());
+            }
+            _ => {
+                dead = true;
+                out.push_str("fin=-");
+            }
+        }
+        let verdict = if dead {
+            "fail hang"
+        } else if panicked {
+            "fail memo-read-panic"
+        } else if memo_stale {
+            // the memo itself lost a write (F-C19-3); the derived then faithfully shows the stale memo
+            "fail memo-stale"
+        } else if stale {
+            "fail derived-stale"
+        } else {
+            "ok"
+        };
+        format!("{out} ## {verdict}")
+    }
+
     // ------------------------------------------------------------ scenario: imm
 
     /// single thread: an `ImmediateEffect` (runs synchronously inside `mark_check` / `mark_dirty`) that reads
@@ -1733,7 +1987,24 @@ mod real {
                 if n_aw == 0 || n_aw > 3 || polls == 0 || polls > 4 {
                     return "bad-op".into();
                 }
-                run_await(kind, n_aw, polls, &s)
+                run_await(kind, n_aw, polls, 0, &s)
+            }
+            ["awaitr", kind, n_aw, polls, reloads, s] => {
+                let kind = match *kind {
+                    "ready" => 0,
+                    "value" => 1,
+                    "ref" => 2,
+                    _ => return "bad-op".into(),
+                };
+                let (Ok(n_aw), Ok(polls), Ok(reloads), Some(s)) =
+                    (n_aw.parse::<usize>(), polls.parse::<usize>(), reloads.parse::<usize>(), parse_sched(s))
+                else {
+                    return "bad-op".into();
+                };
+                if n_aw == 0 || n_aw > 3 || polls == 0 || polls > 4 || reloads > 2 {
+                    return "bad-op".into();
+                }
+                run_await(kind, n_aw, polls, reloads, &s)
             }
             ["dnotify", k, s] => {
                 let (Ok(k), Some(s)) = (k.parse::<usize>(), parse_sched(s)) else { return "bad-op".into() };
@@ -1798,6 +2069,19 @@ mod real {
                     return "no-hooks-v2 (reactive_graph lacks hooks/yield_points_v2.patch)".into();
                 }
                 run_graph(&defs, clean, gates, &progs, &s)
+            }
+            ["derived", spec, progs, s] => {
+                let Some(defs) = parse_graph(spec) else { return "bad-op".into() };
+                let progs: Option<Vec<Vec<DOp>>> =
+                    progs.split('/').enumerate().map(|(i, p)| parse_dprog(p, defs.len(), i)).collect();
+                let (Some(progs), Some(s)) = (progs, parse_sched(s)) else { return "bad-op".into() };
+                if progs.is_empty() || progs.len() > 3 || progs.iter().any(|p| p.len() > 5) {
+                    return "bad-op".into();
+                }
+                if !cfg!(has_yield_hooks_v2) {
+                    return "no-hooks-v2 (reactive_graph lacks hooks/yield_points_v2.patch)".into();
+                }
+                run_derived(&defs, &progs, &s)
             }
             ["imm", spec, prog] => {
                 let Some(defs) = parse_graph(spec) else { return "bad-op".into() };
@@ -1941,6 +2225,38 @@ fn gen(seed: u64, n: usize, path: &str, tier: &str) -> std::io::Result<()> {
     ] {
         for s in all_interleavings(&counts) {
             emit(&mut f, "sig2", format!("sig {progs} {s}"))?;
+        }
+    }
+    // the await path across reloads with two or three awaiters (late re-polls into a refilled waker list)
+    for (kind, n_aw, reloads, counts) in [
+        ("value", 2, 1, vec![10, 9, 9]),
+        ("ready", 2, 1, vec![10, 9, 9]),
+        ("ref", 2, 1, vec![10, 9, 9]),
+        ("value", 3, 1, vec![10, 9, 9, 9]),
+        ("value", 1, 2, vec![15, 12]),
+        ("value", 2, 2, vec![15, 12, 12]),
+    ] {
+        for _ in 0..(if tier == "thorough" { 2000 } else { 150 }) {
+            let sc = random_sched(&mut r, &counts);
+            emit(&mut f, "awaitr", format!("awaitr {kind} {n_aw} 4 {reloads} {sc}"))?;
+        }
+    }
+    // an async derived over a memo source and a direct signal: marks from other threads while its task checks
+    if cfg!(has_yield_hooks_v2) {
+        for (spec, progs, counts) in [
+            ("d100s", "a2,p/b20", vec![12, 2]),
+            ("d100s", "a2,p,p/b20,b30", vec![14, 3]),
+            ("d100s", "a2,p,a300,p/b20,a5", vec![24, 3]),
+            ("x2s", "a2,p,p/b20,a3", vec![20, 3]),
+            ("a1s,d100m0", "a2,p,p/b20,g1", vec![24, 8]),
+            ("x0s,a1s,pm0m1", "a2,p,p/b20,a3,g2", vec![34, 20]),
+            ("d100s", "a2,p/b20/a3,b40", vec![12, 2, 3]),
+            ("d2s", "a2,p,a3,p/b20,b21,g0", vec![22, 9]),
+        ] {
+            for _ in 0..(if tier == "thorough" { 1500 } else { 100 }) {
+                let sc = random_sched(&mut r, &counts);
+                emit(&mut f, "derived", format!("derived {spec} {progs} {sc}"))?;
+            }
         }
     }
     // single thread, an ImmediateEffect on a memo / memo chain / diamond (F-C19-9: self-deadlock before 0488c9f)
